@@ -86,6 +86,23 @@ func (vc *VC) localEnv(b *ssa.BasicBlock, parent *Env) *Env {
 			}
 		}
 	}
+	// every dominating local is also reachable as name#k (k-th local of that
+	// name in the function), which is how an inner loop names the outer index
+	ord := map[string]int{}
+	byOrd := map[string]*ssa.Alloc{}
+	for _, blk := range vc.fn.Blocks {
+		for _, ins := range blk.Instrs {
+			if a, ok := ins.(*ssa.Alloc); ok && a.Comment != "" {
+				ord[a.Comment]++
+				if blk == b || blk.Dominates(b) {
+					byOrd[fmt.Sprintf("%s#%d", a.Comment, ord[a.Comment])] = a
+				}
+			}
+		}
+	}
+	for n, a := range byOrd {
+		best[n] = a
+	}
 	for name, a := range best {
 		a := a
 		et := a.Type().(*types.Pointer).Elem()
@@ -605,6 +622,10 @@ func (vc *VC) evalCall(x *ECall, env *Env, st, old *State) Val {
 			panic(unsupported("sliceof: the dynamic value of the interface is not known here"))
 		}
 		return *a.Inner
+	case "intof":
+		a := arg(0)
+		vc.declareRaw("fun:iface_int", "(declare-fun iface_int (Int) Int)")
+		return Val{K: KInt, T: types.Typ[types.Int], S: sx("iface_int", a.S)}
 	case "sameslice":
 		a, b := arg(0), arg(1)
 		return Val{K: KBool, T: tBool, S: eq(a.S, b.S)}
